@@ -467,10 +467,116 @@ def reentrant_cells(ctx):
             ctx.outcome("back-to-baseline")
 
 
+# ------------------------------------------------------------------ anytrait
+def anytrait_cells(ctx):
+    """observe(h, "*") (and a filter given as a bound method) together with
+    traits that appear after the registration"""
+    import weakref
+    from traits.api import HasTraits, Int, List
+    from traits.observation.api import match
+    from traits.observation.exceptions import NotifierNotFound
+
+    class A(HasTraits):
+        v = Int
+
+    # 1. a List instance trait added under a "*" observer, then unobserve
+    for read_first in (False, True):
+        case = {"anytrait": "added-list", "read_first": read_first}
+        ctx.case(case)
+        ctx.ev()
+        ctx.tr()
+        a = A()
+        calls = []
+
+        def h(ev):
+            calls.append(ev)
+        a.observe(h, "*")
+        a.add_trait("xs", List(Int))
+        if read_first:
+            a.xs
+        try:
+            a.observe(h, "*", remove=True)
+        except Exception as exc:
+            ctx.violation("C09:anytrait:added-list:removal-raises",
+                          "unobserve raised %r" % (exc,), **case)
+            continue
+        calls.clear()
+        a.xs = [1]
+        a.xs.append(2)
+        a.v = 3
+        if calls:
+            ctx.violation(
+                "C09:anytrait:added-list:still-called",
+                "observe(h, '*'); add_trait('xs', List(Int)); unobserve: the "
+                "handler is still called %d time(s) (%s)" % (
+                    len(calls), sorted({getattr(c, "name", "?")
+                                        for c in calls})), **case)
+        else:
+            ctx.outcome("back-to-baseline")
+    # 2. an undeclared attribute first touched on ANOTHER instance
+    case = {"anytrait": "undeclared-on-sibling"}
+    ctx.case(case)
+    ctx.ev()
+    ctx.tr()
+
+    class B(HasTraits):
+        pass
+    p, q = B(), B()
+    calls = []
+
+    def h2(ev):
+        calls.append(ev)
+    q.observe(h2, "*")
+    p.foo = 1
+    q.foo = 2
+    try:
+        q.observe(h2, "*", remove=True)
+        calls.clear()
+        q.foo = 3
+        if calls:
+            ctx.violation("C09:anytrait:undeclared-on-sibling:still-called",
+                          "handler called after its only registration was "
+                          "removed", **case)
+        else:
+            ctx.outcome("back-to-baseline")
+    except NotifierNotFound:
+        ctx.violation(
+            "C09:anytrait:undeclared-on-sibling:removal-raises",
+            "q.observe(h, '*'); p.foo = 1; q.foo = 2 (an undeclared name "
+            "first touched on another instance of the class): removing the "
+            "one registration raises NotifierNotFound and leaves it in place",
+            **case)
+    # 3. a filter that is a bound method of the observed object
+    case = {"anytrait": "bound-filter"}
+    ctx.case(case)
+    ctx.ev()
+    ctx.tr()
+
+    class C(HasTraits):
+        v = Int
+
+        def only_v(self, name, trait):
+            return name == "v"
+    c = C()
+    r = weakref.ref(c)
+    c.observe(h2, match(c.only_v))
+    c.observe(h2, match(c.only_v), remove=True)
+    del c
+    gc.collect()
+    if r() is not None:
+        ctx.violation(
+            "C09:anytrait:bound-filter:kept-alive",
+            "c.observe(h, match(c.method)) followed by its removal: the "
+            "object is kept alive after the last outside reference is gone",
+            **case)
+    else:
+        ctx.outcome("object-collected")
+
+
 def shards(tier):
     evs = event_menu()
     n = len(evs)
-    return [{"first": -1, "eq": False}] + \
+    return [{"first": -1, "eq": False}, {"first": -2, "eq": False}] + \
         [{"first": i, "eq": eq} for eq in (False, True, "falsy")
          for i in range(n)]
 
@@ -478,6 +584,10 @@ def shards(tier):
 def run_shard(ctx, shard, tier):
     if shard["first"] == -1:
         reentrant_cells(ctx)
+        ctx.depth_completed = 2
+        return
+    if shard["first"] == -2:
+        anytrait_cells(ctx)
         ctx.depth_completed = 2
         return
     evs = event_menu()
@@ -508,6 +618,14 @@ def replay(rec):
     from mc.ctx import Ctx
     ctx = Ctx("C09", None, "quick", 0)
     c = rec.get("case") or rec
+    if c.get("anytrait"):
+        anytrait_cells(ctx)
+        want = rec.get("sig")
+        hit = [v for v in ctx.violations.values()
+               if want is None or v["sig"] == want]
+        for v in hit:
+            print("  violation:", v["sig"], v["msg"])
+        return not hit
     if c.get("reentrant"):
         reentrant_cells(ctx)
         for v in ctx.violations.values():
